@@ -284,6 +284,16 @@ pub fn shape(h: &Hir) -> (usize, usize) {
     (n, kinds.iter().filter(|&&k| k).count())
 }
 
+/// nesting depth of repetitions
+pub fn rep_depth(h: &Hir) -> usize {
+    match h.kind() {
+        HirKind::Repetition(r) => 1 + rep_depth(&r.sub),
+        HirKind::Capture(c) => rep_depth(&c.sub),
+        HirKind::Concat(xs) | HirKind::Alternation(xs) => xs.iter().map(rep_depth).max().unwrap_or(0),
+        _ => 0,
+    }
+}
+
 pub fn has_look(h: &Hir, p: &dyn Fn(Look) -> bool) -> bool {
     match h.kind() {
         HirKind::Look(l) => p(*l),
